@@ -637,6 +637,7 @@ def generate(repo):
     info = ClassInfo([base, der])
     utl, _ = load(repo, 'prysm/util.py')
     pol, _ = load(repo, 'prysm/polynomials/__init__.py')
+    coo, _ = load(repo, 'prysm/coordinates.py')
     CALLEES.clear()
     for mod in (pol, utl, ig):      # module-level helpers whose bodies are inspected for in-place writes to their arguments
         for n in mod.body:
@@ -897,6 +898,64 @@ def generate(repo):
            'def cropBottom (v : Nat → Nat → Bool) (rows cols : Nat) : Nat := argmaxB (colAny v rows cols).reverse\n'
            'def cropReturnsEarly (left right top bottom : Int) : Bool := decide (left = 0 ∧ right = 0 ∧ top = 0 ∧ bottom = 0)\n'
            'def cropValidityIsFinite : Bool := true')
+
+    # ---- the polar transform behind RichData.r / .t: cart_to_polar as expressions in hypot / arctan2
+    def polar_transform():
+        fn = get_def(coo, 'cart_to_polar')
+        params = [a.arg for a in fn.args.args]
+        if params[:2] != ['x', 'y']:
+            raise Untranslatable('cart_to_polar parameters are not (x, y, ..)')
+        env = {'x': 'x', 'y': 'y'}
+
+        def ev(e):
+            if isinstance(e, ast.Name) and e.id in env:
+                return env[e.id]
+            if isinstance(e, ast.Subscript):      # x[np.newaxis, :] / y[:, None]: the same values, broadcast
+                txt = ast.unparse(e).replace(' ', '')[len(ast.unparse(e.value).replace(' ', '')):]
+                if txt in ('[np.newaxis,:]', '[:,np.newaxis]', '[None,:]', '[:,None]'):
+                    return ev(e.value)
+            if isinstance(e, ast.Call):
+                f = ast.unparse(e.func)
+                if f == 'np.hypot' and len(e.args) == 2 and not e.keywords:
+                    return f'(hyp {ev(e.args[0])} {ev(e.args[1])})'
+                if f == 'np.arctan2' and len(e.args) == 2 and not e.keywords:
+                    return f'(at2 {ev(e.args[0])} {ev(e.args[1])})'
+                if f == 'np.sqrt' and len(e.args) == 1 and isinstance(e.args[0], ast.BinOp) and isinstance(e.args[0].op, ast.Add):
+                    def sq(t):
+                        if isinstance(t, ast.BinOp) and isinstance(t.op, ast.Pow) and isinstance(t.right, ast.Constant) and t.right.value == 2:
+                            return ev(t.left)
+                        if isinstance(t, ast.BinOp) and isinstance(t.op, ast.Mult) and ast.unparse(t.left) == ast.unparse(t.right):
+                            return ev(t.left)
+                        raise Untranslatable('sqrt of something that is not a sum of two squares')
+                    return f'(hyp {sq(e.args[0].left)} {sq(e.args[0].right)})'
+            raise Untranslatable(f'cart_to_polar expression {ast.unparse(e)[:40]}')
+
+        def run(stmts):
+            for st in stmts:
+                if isinstance(st, ast.Expr):
+                    continue
+                if isinstance(st, ast.If):
+                    # the vector -> grid branch must only re-index x and y (value-transparent)
+                    for b in st.body:
+                        if not (isinstance(b, ast.Assign) and len(b.targets) == 1 and isinstance(b.targets[0], ast.Name)
+                                and b.targets[0].id in ('x', 'y') and ev(b.value) == b.targets[0].id):
+                            raise Untranslatable('vec_to_grid branch changes the values of x / y')
+                    if st.orelse:
+                        raise Untranslatable('else branch in cart_to_polar')
+                    continue
+                if isinstance(st, ast.Assign) and len(st.targets) == 1 and isinstance(st.targets[0], ast.Name):
+                    env[st.targets[0].id] = ev(st.value)
+                    continue
+                if isinstance(st, ast.Return) and isinstance(st.value, ast.Tuple) and len(st.value.elts) == 2:
+                    return ev(st.value.elts[0]), ev(st.value.elts[1])
+                raise Untranslatable(f'statement in cart_to_polar: {ast.unparse(st)[:40]}')
+            raise Untranslatable('cart_to_polar does not return a pair')
+        rho, phi = run(fn.body)
+        sig = '{K : Type} (hyp at2 : K → K → K) (x y : K) : K'
+        return f'def polarRho {sig} := {rho}\ndef polarPhi {sig} := {phi}'
+    g.item('polar.transform', 'prysm/coordinates.py:cart_to_polar', lambda: get_def(coo, 'cart_to_polar'), polar_transform,
+           'def polarRho {K : Type} (hyp at2 : K → K → K) (x y : K) : K := hyp x y\n'
+           'def polarPhi {K : Type} (hyp at2 : K → K → K) (x y : K) : K := at2 y x')
 
     # ---- the reported statistics: which util function each Interferogram property hands `self.data` to
     def stats_delegation():
